@@ -50,6 +50,8 @@ type TDSPeer struct {
 
 	ClientClosedConn bool
 	lastDeliver      time.Duration
+	// Muted: the server has gone silent in the middle of a packet (SendPartial): nothing may follow on the stream.
+	Muted bool
 
 	// NewSub, if set, makes the peer serve further connections: each gets its own wire state from NewSub.
 	NewSub func(c *simrt.Conn) *TDSPeer
@@ -127,6 +129,9 @@ func (p *TDSPeer) Data(c *simrt.Conn, b []byte) {
 
 // SendPackets delivers complete packets to the client, in order.
 func (p *TDSPeer) SendPackets(pkts [][]byte) {
+	if p.Muted {
+		return
+	}
 	for _, pk := range pkts {
 		if p.Async {
 			// keep stream order: never schedule before an earlier delivery
@@ -140,6 +145,13 @@ func (p *TDSPeer) SendPackets(pkts [][]byte) {
 			p.Conn.Deliver(pk)
 		}
 	}
+}
+
+// SendPartial delivers the beginning of a packet in stream order - behind whatever is already on its way - and
+// then nothing more: a server that stops in the middle of a packet cannot send another one behind the fragment.
+func (p *TDSPeer) SendPartial(fragment []byte) {
+	p.SendPackets([][]byte{fragment})
+	p.Muted = true
 }
 
 // SendResponse packetises body as a response message on channel and delivers it.
